@@ -52,16 +52,17 @@ type site struct {
 }
 
 type rewriter struct {
-	fset   *token.FileSet
-	pkg    *packages.Package
-	info   *types.Info
-	race   bool
-	sites  []site
-	errs   []string
-	needRT map[*ast.File]bool
-	file   *ast.File
-	nsite  *int
-	local  map[string]bool // import paths of the packages being rewritten
+	fset    *token.FileSet
+	pkg     *packages.Package
+	info    *types.Info
+	race    bool
+	sites   []site
+	errs    []string
+	needRT  map[*ast.File]bool
+	file    *ast.File
+	nsite   *int
+	local   map[string]bool // import paths of the packages being rewritten
+	raceCtx *raceState
 }
 
 func (r *rewriter) errorf(pos token.Pos, format string, a ...any) {
@@ -117,7 +118,7 @@ func pure(e ast.Expr) bool {
 }
 
 func (r *rewriter) isMap(e ast.Expr) bool {
-	t := r.info.TypeOf(e)
+	t := r.typeOf(e)
 	if t == nil {
 		return false
 	}
@@ -125,8 +126,15 @@ func (r *rewriter) isMap(e ast.Expr) bool {
 	return ok
 }
 
+func (r *rewriter) typeOf(e ast.Expr) types.Type {
+	if r.raceCtx != nil {
+		return r.raceCtx.impl.typeOf(e)
+	}
+	return r.info.TypeOf(e)
+}
+
 func (r *rewriter) isChan(e ast.Expr) bool {
-	t := r.info.TypeOf(e)
+	t := r.typeOf(e)
 	if t == nil {
 		return false
 	}
@@ -148,6 +156,7 @@ func (r *rewriter) rewriteFile(f *ast.File) {
 	if r.race {
 		raceCtx = newRaceState(r, f)
 	}
+	r.raceCtx = raceCtx
 	astutil.Apply(f, func(c *astutil.Cursor) bool {
 		if raceCtx != nil {
 			return raceCtx.pre(c)
@@ -288,7 +297,7 @@ func (r *rewriter) rewriteSelect(s *ast.SelectStmt, isLabeled bool) ast.Stmt {
 			r.errorf(cc.Pos(), "unsupported select case")
 			return nil
 		}
-		if !pure(unwrapRace(u.X)) {
+		if !pure(unwrapAll(u.X)) {
 			r.errorf(u.Pos(), "select on a channel expression with side effects is not simulated")
 			return nil
 		}
@@ -343,12 +352,12 @@ func unwrapPure(e ast.Expr) ast.Expr {
 
 func (r *rewriter) rewriteMapRange(rs *ast.RangeStmt) {
 	m := rs.X
-	if !pure(unwrapRace(m)) {
+	if !pure(unwrapAll(m)) {
 		r.errorf(rs.Pos(), "range over a map expression with side effects is not simulated")
 		return
 	}
 	line := r.fset.Position(rs.Pos()).Line
-	r.addSite(rs.Pos(), "maprange", exprString(r.fset, unwrapRace(m)))
+	r.addSite(rs.Pos(), "maprange", exprString(r.fset, unwrapAll(m)))
 	kName := fmt.Sprintf("simk%d", line)
 	vName := fmt.Sprintf("simv%d", line)
 	okName := fmt.Sprintf("simok%d", line)
@@ -511,6 +520,18 @@ func main() {
 		if len(p.GoFiles) > 0 {
 			out := filepath.Join(filepath.Dir(p.GoFiles[0]), "zz_simreset.go")
 			if err := os.WriteFile(out, []byte(genReset(p)), 0o644); err != nil {
+				allErrs = append(allErrs, err.Error())
+			}
+		}
+		if len(p.GoFiles) > 0 && len(r.sites) > 0 {
+			var b strings.Builder
+			fmt.Fprintf(&b, "// Code generated by simrewrite. DO NOT EDIT.\n\npackage %s\n\nimport simrt \"verif/sim/simrt\"\n\nfunc init() {\n\tsimrt.RegisterSites(map[int]string{\n", p.Name)
+			for _, st := range r.sites {
+				fmt.Fprintf(&b, "\t\t%d: %q,\n", st.ID, st.Kind+" "+st.What+" ("+st.Pos+")")
+			}
+			b.WriteString("\t})\n}\n")
+			out := filepath.Join(filepath.Dir(p.GoFiles[0]), "zz_simsites.go")
+			if err := os.WriteFile(out, []byte(b.String()), 0o644); err != nil {
 				allErrs = append(allErrs, err.Error())
 			}
 		}
